@@ -234,12 +234,13 @@ def run(ck):
     from . import c08
     orig_v, orig_viol, orig_floor = ck.verdict, ck.violation, ck.floor
     ck.verdict = lambda ok, rule, key, where='', detail='', **kw: orig_v(ok, 'C06.d', rule + ':' + key, where, detail, **kw) \
-        if key in ('send_resp_0', 'send_resp_32', 'req2resp', 'regp_resp_ack') else None
+        if key in ('send_resp_0', 'send_resp_32', 'req2resp', 'regp_resp_ack', 'make_motv:layout') else None
     ck.violation = lambda rule, key, where='', detail='', **kw: orig_viol('C06.d', rule + ':' + key, where, detail, **kw)
     ck.floor = lambda *a, **k: True
     try:
         c08.rule_h(ck, R)
         c08.rule_fg(ck, R)
+        c08.rule_bc(ck, R)      # the response code travels in the 4-bit meta field of word 0: all four bits must arrive
     finally:
         ck.verdict, ck.violation, ck.floor = orig_v, orig_viol, orig_floor
     # a request whose answer fits must reach the backend (block sizes 0..capacity): the
